@@ -2138,13 +2138,31 @@ class WorkingPool(RecPool):
         self.run.tick()
         self.run.events.append(('proc', tuple(tuple(t) for t in tiles)))
         worker = sd.TileSeedWorker(self.run.task, OneShotQueue([tiles, None]), base_config())
-        worker.work_loop()
+        tm = self.run.task.tile_manager
+        st = self.run.store_state
+        members = [tuple(t) for t in tm.meta_grid.meta_tile(tiles[0]).tiles if t is not None]
+        from mapproxy.cache.tile import Tile
+        before = [t for t in members if tm.cache.is_cached(Tile(t))]
+        n0 = len(st['stored'])
+        died = True
+        try:
+            worker.work_loop()
+            died = False
+        finally:
+            # (cache content restricted to the meta tile, meta_tile.tiles, handed list, died behind this many stores, store_tile calls)
+            self.run.work_log.append((before, members, [tuple(t) for t in tiles], len(st['stored']) - n0 if died else None,
+                                      list(st['stored'][n0:])))
         if self.progress_logger:
             self.run.clock.now += 1.0
             self.progress_logger.log_step(progress)
 
 
 class StoringRun(Run):
+    def __init__(self, task, spec, fn, store_state):
+        Run.__init__(self, task, spec, fn, None, lambda i: True)
+        self.store_state = store_state
+        self.work_log = []
+
     def make_pool(self, log):
         return WorkingPool(self, log)
 
@@ -2213,8 +2231,7 @@ def store_crash_cases(ctx):
          'meta': [3, 2], 'levels': [0, 2], 'cov': {'type': 'bbox', 'bbox': [3000, 100, 15000, 7000], 'srs': 3857}, 'skip': 0,
          'refresh_all': False},
     ]
-    if ctx.quick:
-        tasks = tasks[:2]
+    work = []
     for ti, spec in enumerate(tasks):
         base = ctx.tmpdir('c11store')
         stub_spec = dict(spec, real_tm=False)
@@ -2236,9 +2253,10 @@ def store_crash_cases(ctx):
             cdir = os.path.join(base, 'cache-k%d' % k)
             pfile = os.path.join(base, 'progress-k%d' % k)
             task1, cache1, st1, _ = storing_task(spec, cdir, k)
-            r1 = StoringRun(task1, spec, pfile, None, lambda i: True).go()
+            r1 = StoringRun(task1, spec, pfile, st1).go()
             task2, cache2, st2, _ = storing_task(spec, cdir, None)
-            r2 = StoringRun(task2, spec, pfile, None, lambda i: True).go()
+            r2 = StoringRun(task2, spec, pfile, st2).go()
+            work.extend(r1.work_log + r2.work_log)
             ctx.case(('store-crash', ti, k), True, {'task': spec, 'worker_dies_after_stored_tiles': k})
             ctx.count('worker_dies_while_storing')
             if not r1.crashed or r1.raised or r2.raised or r2.crashed:
@@ -2268,7 +2286,8 @@ def store_crash_cases(ctx):
                 tile.source = ImageSource(Image.new('RGB', tuple(spec['grid']['tile_size']), (1, 2, 3)), image_opts=ImageOptions(format='image/png'))
                 cache.store_tile(tile)
             del st['stored'][:]
-            r = StoringRun(task, spec, pfile, None, lambda i: True).go()
+            r = StoringRun(task, spec, pfile, st).go()
+            work.extend(r.work_log)
             ctx.case(('store-partial', ti, tuple(rule)), bool(pre) and len(pre) < len(want), {'task': spec, 'cached_before': [list(t) for t in pre]})
             ctx.count('partly_cached_meta_tiles_seeded')
             if r.raised or r.crashed:
@@ -2286,6 +2305,22 @@ def store_crash_cases(ctx):
             if extra:
                 ctx.fail('cached-tile-handed-over', 'uncached mode handed over tiles that were in the cache: %r' % (extra[:4],),
                          {'task': spec, 'cached_before': [list(t) for t in pre], 'handed_although_cached': [list(t) for t in extra]})
+
+    # the store_tile calls of every hand-over vs the model of the worker (Seed.worker_stores; theorem interrupted_store_completed)
+    seen, terms, descs = set(), [], []
+    for before, members, handed, j, stored in work:
+        key = (tuple(before), tuple(members), tuple(handed), j, tuple(stored))
+        if key in seen:
+            continue
+        seen.add(key)
+        terms.append('(%s, %s, %s, %s, %s)' % (llit(before, coord_lit), llit(members, coord_lit), llit(handed, coord_lit),
+                                               olit(j, lambda n: '%d%%nat' % n), llit(stored, coord_lit)))
+        descs.append({'cached_members_before': before, 'meta_tile_tiles': members, 'handed': handed, 'died_behind_store': j,
+                      'store_tile_calls': stored})
+    ctx.corr_check('meta_store', 'Grid Seed', 'list coord * list coord * list coord * option nat * list coord', terms,
+                   "fun c => let '(before, members, handed, j, stored) := c in let m := worker_stores before members handed in "
+                   "coords_eqb (match j with Some n => firstn n m | None => m end) stored",
+                   lambda i: descs[i])
 
 
 def load_corpus():
